@@ -781,6 +781,7 @@ loop:
 	w.plugged = false
 	exp, opt := w.pending, w.pendOpt
 	w.pending, w.pendOpt = nil, nil
+	w.M.Suppressed = nil
 	exp, got = dropOptional(exp, opt, got)
 	seg := Segment{Burst: w.segBurst, Ops: w.opsInSeg, Expected: exp, Delivered: got}
 	w.Segments = append(w.Segments, seg)
@@ -1249,6 +1250,15 @@ func (w *World) RemoveNow(p string) {
 	for i, e := range w.pending {
 		if e.Name == c || strings.HasPrefix(e.Name, c+"/") {
 			w.pendOpt[i] = true
+		}
+	}
+	// a Remove of a watched entry that the model left out because this
+	// directory was listed may be reported after all (the Watcher decides when
+	// it handles the notification, and by then the directory is not listed)
+	for _, sp := range w.M.Suppressed {
+		if sp.Parent == c {
+			w.pending = append(w.pending, sp.Ev)
+			w.pendOpt = append(w.pendOpt, true)
 		}
 	}
 	w.Feat["remove-inside-burst"]++
